@@ -159,7 +159,7 @@ def _ret_value(r):
     return v.value if isinstance(v, (ast.Yield, ast.YieldFrom)) else None
 
 
-def rule_record(ctx):
+def rule_record(ctx, only=None, min_handoffs=15):
     r_thread = RuleResult(
         "record-threaded",
         "inside every record-aware function (decorated with @convert_cur_orthog, or taking info/cur_orthog and "
@@ -186,6 +186,8 @@ def rule_record(ctx):
     copying = {f.name for f in funcs if "inplace" in f.params}
     for f in funcs:
         if f.name == "parse_cur_orthog":
+            continue
+        if only is not None and not only(f):
             continue
         v = _FnView(f)
         where = f"{f.module.relpath}:{f.lineno}"
@@ -339,7 +341,7 @@ def rule_record(ctx):
                 ))
             else:
                 r_struct.ok(f"{q}:{text}", sample={"function": q, "event": text, "followed by": "record store" if nxt else "no hand-back"})
-    r_follow.floor(r_follow.obligations, 15, "record hand-offs")
+    r_follow.floor(r_follow.obligations, min_handoffs, "record hand-offs")
     return [r_thread, r_follow, r_struct]
 
 
